@@ -1912,6 +1912,12 @@ pub mod verif_hooks {
         }
     }
 
+    /// Number of commands waiting in this gate's own command queue (None if
+    /// the queue is being read right now).
+    pub fn gate_pending_commands(gate: &Gate) -> Option<usize> {
+        gate.commands.try_read().ok().map(|rx| rx.len())
+    }
+
     /// The id of a gate clone (None for a root gate).
     pub fn gate_clone_id(gate: &Gate) -> Option<Uuid> {
         if gate.is_clone() {
